@@ -120,3 +120,50 @@ pub fn decode_only(lib: &str, dir: &str, bytes: &[u8]) -> String {
         _ => "bad-op".into(),
     }
 }
+
+macro_rules! world_stream {
+    ($exp:ident, $opc:ident, $w:ident, $bytes:expr) => {{
+        let bytes: &[u8] = $bytes;
+        let mut cur = Cursor::new(bytes);
+        let mut out = String::from("ok");
+        let mut n = 0usize;
+        while (cur.position() as usize) < bytes.len() && n < 4096 {
+            n += 1;
+            let start = cur.position() as usize;
+            match wow_world_messages::$exp::opcodes::$opc::read_unencrypted(&mut cur) {
+                Ok(m) => {
+                    let mut w = Vec::new();
+                    let good = matches!(std::panic::catch_unwind(std::panic::AssertUnwindSafe(|| m.$w(&mut w))), Ok(Ok(()))) && w.as_slice() == &bytes[start..cur.position() as usize];
+                    out.push_str(&format!(" {}{}@{}", m, if good { "" } else { "!" }, cur.position()));
+                }
+                Err(wow_world_messages::errors::ExpectedOpcodeError::Opcode { opcode, .. }) => out.push_str(&format!(" unknown:{}@{}", opcode, cur.position())),
+                Err(wow_world_messages::errors::ExpectedOpcodeError::Parse(_)) => out.push_str(&format!(" bad@{}", cur.position())),
+                Err(e) => { out.push_str(&format!(" io:{}@{}", parse_kind(&format!("{e:?}")).replace(' ', "_"), cur.position())); break; }
+            }
+        }
+        out.push_str(&format!(" end={}", cur.position()));
+        out
+    }};
+}
+
+/// `mstream <exp> <dir> <hex>`: read one stream of arbitrary messages through the opcode-enum reader until it ends; after an unknown opcode or
+/// a body that does not parse reading goes on (C02: the stream must still be aligned).  -> `ok NAME@pos unknown:OP@pos bad@pos … end=N`
+/// (`NAME!` when writing the decoded message back does not reproduce the bytes it was read from)
+pub fn mstream(exp: &str, dir: &str, hex: &str) -> String {
+    let Some(bytes) = crate::unhex(hex) else { return "bad-op".into() };
+    match (exp, dir) {
+        #[cfg(feature = "vanilla")]
+        ("vanilla", "client") => world_stream!(vanilla, ClientOpcodeMessage, write_unencrypted_client, bytes.as_slice()),
+        #[cfg(feature = "vanilla")]
+        ("vanilla", "server") => world_stream!(vanilla, ServerOpcodeMessage, write_unencrypted_server, bytes.as_slice()),
+        #[cfg(feature = "tbc")]
+        ("tbc", "client") => world_stream!(tbc, ClientOpcodeMessage, write_unencrypted_client, bytes.as_slice()),
+        #[cfg(feature = "tbc")]
+        ("tbc", "server") => world_stream!(tbc, ServerOpcodeMessage, write_unencrypted_server, bytes.as_slice()),
+        #[cfg(feature = "wrath")]
+        ("wrath", "client") => world_stream!(wrath, ClientOpcodeMessage, write_unencrypted_client, bytes.as_slice()),
+        #[cfg(feature = "wrath")]
+        ("wrath", "server") => world_stream!(wrath, ServerOpcodeMessage, write_unencrypted_server, bytes.as_slice()),
+        _ => "bad-op".into(),
+    }
+}
